@@ -156,15 +156,21 @@ GROUPS.append(dict(name='tree_dfcc_move_red_right', harness='qtreetbl/helpers_df
                    replace=['flip_color', 'rotate_right'], props=['C02', 'C11'], functions=['move_red_right', 'flip_color (by contract)', 'rotate_right (by contract)'],
                    units=U, strength='proof', timeout=300, require_canary=False, replay=False, bound='none (loop-free; callee bodies replaced by their contracts)'))
 
+GROUPS.append(dict(name='tree_dfcc_move_red_left', harness='qtreetbl/helpers_dfcc.c', entry='h_dfcc_move_red_left', mode='dfcc', enforce=['move_red_left'], solver='kissat',
+                   replace=['flip_color', 'rotate_right', 'rotate_left'], props=['C02', 'C11'], functions=['move_red_left', 'flip_color (by contract)', 'rotate_right (by contract)', 'rotate_left (by contract)'],
+                   units=U, strength='proof', timeout=1200, require_canary=False, replay=False, bound='none (loop-free; callee bodies replaced by their contracts)'))
+
 # window induction for put_obj (DESIGN.md 1.4): unbounded in tree size; the recursive self-call is the induction hypothesis
 # (weave rule rename_calls), qtreetbl_putobj is checked against the put_obj contract at the root
+# (left child present, right child present, node red, left child red, right child red): every combination that is a valid LLRB 2-3-4 node
+WIN_SHAPES = [(0, 0, 0, 0, 0), (0, 0, 1, 0, 0), (1, 0, 0, 1, 0), (1, 1, 0, 0, 0), (1, 1, 0, 1, 0), (1, 1, 0, 1, 1), (1, 1, 1, 0, 0)]
 WR = {'src/containers/qtreetbl.c': {'rules': 'weave/rules/qtreetbl.json'}}
 for _n, _e, _fn in (('step', 'h_win_put_step', ['put_obj', 'rotate_left', 'rotate_right', 'flip_color', 'is_red']),
                     ('null', 'h_win_put_null', ['put_obj', 'new_obj', 'qmemdup']),
                     ('putobj_top', 'h_win_putobj_top', ['qtreetbl_putobj', 'put_obj (by contract)', 'qtreetbl_lock', 'qtreetbl_unlock'])):
     GROUPS.append(dict(name='tree_win_' + _n, harness='qtreetbl/window.c', entry=_e, mode='unwind', unwind=8, fp=True, fp_extra=FP,
                        props=['C01', 'C02', 'C11', 'C12', 'C15'], functions=_fn, units=U, weave=WR, strength='proof', timeout=1500, solver='kissat',
-                       **({'instances': [dict(WP1=a, WP2=b, WRED=c, WDIR=d) for a in (0, 1) for b in (0, 1) for c in (0, 1) for d in (0, 1, 2)]} if _n == 'step' else {}),
+                       **({'instances': [dict(WP1=a, WP2=b, WRED=c, WC1=e, WC2=f, WDIR=d) for (a, b, c, e, f) in WIN_SHAPES for d in (0, 1, 2)]} if _n == 'step' else {}),
                        bound='none on the tree: window of real nodes over summarised subtrees of any size (structural induction step); one-byte keys under a rank comparator, 2-byte values'))
 
 GROUPS = GROUPS + c13(GROUPS)
